@@ -41,17 +41,26 @@ def build(scratch_parent=None, shim=True, harness="vh", race=False):
         open(os.path.join(sh, b), "w").write(s)
     open(os.path.join(sh, "go.mod"), "w").write("module github.com/karrick/gobptree\n\ngo 1.18\n")
     if shim:
+        has_tm = {}
         for low, cap, keyt in TYPES:
-            if notes.get(low + ".go") != EXPECTED_MUTEXES:
+            src = open(os.path.join(sh, low + ".go")).read()
+            # does the tree header carry a mutex (fix F4)?  Without it the hooks still work: the harness then sees
+            # that the tree mutex is never taken and the monitors decide
+            has_tm[low] = bool(re.search(r"type %sTree struct \{[^}]*\bmutex\s+verifMutex" % cap, src))
+            want = EXPECTED_MUTEXES if has_tm[low] else EXPECTED_MUTEXES - 1
+            if notes.get(low + ".go") != want:
                 shutil.rmtree(tmp, ignore_errors=True)
-                raise ShadowError("%s.go declares %s sync.Mutex fields, the hooks expect %d (node, leaf, tree header)"
-                                  % (low, notes.get(low + ".go"), EXPECTED_MUTEXES))
+                raise ShadowError("%s.go declares %s sync.Mutex fields, the hooks expect %d (node, leaf%s)"
+                                  % (low, notes.get(low + ".go"), want, ", tree header" if has_tm[low] else ""))
         hooks = os.path.join(VERIF, "harness", "hooks")
         shutil.copy(os.path.join(hooks, "zz_verif_common.go"), sh)
         tmpl = open(os.path.join(hooks, "zz_verif_type.go.tmpl")).read()
         for low, cap, keyt in TYPES:
+            tpos = '\tif m == &t.mutex {\n\t\treturn "T"\n\t}\n' if has_tm[low] else ""
+            thold = "t.mutex.holder" if has_tm[low] else "0"
             open(os.path.join(sh, "zz_verif_%s.go" % low), "w").write(
-                tmpl.replace("@LOW@", low).replace("@CAP@", cap).replace("@KEYT@", keyt))
+                tmpl.replace("@LOW@", low).replace("@CAP@", cap).replace("@KEYT@", keyt)
+                    .replace("@TMUTEX_POS@", tpos).replace("@TMUTEX_HOLDER@", thold))
     vh = os.path.join(tmp, harness)
     shutil.copytree(os.path.join(VERIF, "harness", harness), vh)
     cmd = ["go", "build"] + (["-race"] if race else []) + (["-tags", "verif"] if shim else []) + ["-o", harness, "."]
